@@ -40,7 +40,7 @@ import (
 // KD is one KeyDescriptor of the registered SP metadata.
 type KD struct {
 	Use  string `json:"use"`  // encryption | signing | "" (omitted)
-	Cert string `json:"cert"` // rsa | rsa2 | rsachain (SP certificate followed by a second one in the same X509Data) | ec | empty | blank | notb64 | garbage | none (zero X509Certificate elements)
+	Cert string `json:"cert"` // rsa | rsa2 | rsachain (SP certificate followed by a second one in the same X509Data) | rsaconcat (SP certificate and a second one concatenated inside ONE X509Certificate element) | ec | empty | blank | notb64 | garbage | none (zero X509Certificate elements)
 	// Methods: EncryptionMethod elements listed beside the key (short names, see methodURIs).  Whatever
 	// the SP says it prefers, an advertised key means the assertion does not travel in clear.
 	Methods []string `json:"methods,omitempty"`
@@ -118,6 +118,10 @@ func certText(k KD) (string, bool) {
 	switch k.Cert {
 	case "rsa", "rsachain":
 		return fix.Get("sp").CertB64(), true
+	case "rsaconcat":
+		// the SP certificate followed by another certificate (its issuing CA, say) in ONE X509Certificate element,
+		// which is what ServiceProvider.Metadata() publishes when Intermediates is set
+		return base64.StdEncoding.EncodeToString(append(append([]byte{}, fix.Get("sp").Cert.Raw...), fix.Get("idp2").Cert.Raw...)), true
 	case "rsa2":
 		return "\n  " + fix.Get("sp2").CertB64() + "\n", true
 	case "ec":
@@ -484,7 +488,17 @@ func inspect(r reply, s Session, adv bool, first string) (fail string, key, iv [
 	if first == "rsachain" {
 		first = "rsa" // the first certificate of the chain is the SP's
 	}
+	if first == "rsaconcat" {
+		// refusing this layout is fine; if a response is emitted, it is for the SP (first certificate) and nobody else
+		first = "rsa"
+	}
 	if first != "rsa" && first != "rsa2" {
+		// whatever was emitted, no key of another party opens it
+		for _, other := range []string{"idp", "idp2", "attacker", "idpenc"} {
+			if _, _, _, err := forge.DecryptAssertion(enc[0], fix.Get(other).RSA()); err == nil {
+				return fmt.Sprintf("private key %q, which is not the SP's, recovers the content", other), nil, nil
+			}
+		}
 		return "", nil, nil
 	}
 	plain, key, iv, err := forge.DecryptAssertion(enc[0], want.RSA())
@@ -499,7 +513,7 @@ func inspect(r reply, s Session, adv bool, first string) (fail string, key, iv [
 	if !strings.Contains(string(plain), "SignatureValue") {
 		return "decrypted assertion is not signed", key, iv
 	}
-	for _, other := range []string{"sp", "sp2", "idp", "attacker"} {
+	for _, other := range []string{"sp", "sp2", "idp", "idp2", "attacker"} {
 		if other == want.Name {
 			continue
 		}
@@ -1101,7 +1115,7 @@ func check1(c Case) pbt.Result {
 
 // ---------------------------------------------------------------- generators
 
-var certClasses = []string{"rsa", "rsa", "rsa2", "rsachain", "ec", "empty", "blank", "notb64", "garbage", "none"}
+var certClasses = []string{"rsa", "rsa", "rsa2", "rsachain", "rsaconcat", "ec", "empty", "blank", "notb64", "garbage", "none"}
 var tampers = []string{"none", "encrypted-to-other-key", "attacker-encrypts-unsigned", "attacker-encrypts-unsigned-fake-signature-foreign-ns", "attacker-encrypts-unsigned-fake-signature-no-ns", "attacker-encrypts-unsigned-empty-dsig-signature", "attacker-encrypts-own-signed", "attacker-encrypts-own-signed-claims-cert", "flip-data-byte", "flip-data-byte", "truncate-data", "flip-key-byte", "empty-data", "swap-blocks"}
 
 func genSession(t *rapid.T) Session {
@@ -1190,7 +1204,7 @@ func gen0(t *rapid.T) Case {
 // restricted to 2 in quick, with a fixed marker session, through POST.
 func enumLayouts(tier string, emit func(Case)) {
 	uses := []string{"encryption", "", "signing"}
-	certs := []string{"rsa", "rsachain", "ec", "empty", "blank", "notb64", "garbage", "none"}
+	certs := []string{"rsa", "rsachain", "rsaconcat", "ec", "empty", "blank", "notb64", "garbage", "none"}
 	var all []KD
 	for _, u := range uses {
 		for _, c := range certs {
